@@ -161,3 +161,13 @@ class Opaque:
 
 def is_concrete(v: Any) -> bool:
     return v is None or isinstance(v, (bool, int, str, float, tuple, frozenset, bytes, EnumV))
+
+
+@dataclass(frozen=True)
+class OneOf:
+    """Exactly one of finitely many abstract alternatives (lazy disjunction for scalar slots)."""
+
+    alts: tuple
+
+    def __repr__(self) -> str:
+        return "OneOf(" + " | ".join(map(repr, self.alts)) + ")"
